@@ -107,7 +107,12 @@ func top(r *vf.Run) {
 		wg.Add(1)
 		go func() {
 			defer wg.Done()
-			runProbes(r)
+			runProbes(r, false)
+		}()
+		wg.Add(1)
+		go func() { // the same probes in the race build (race reports are attributed as in the race stage)
+			defer wg.Done()
+			runProbes(r, true)
 		}()
 	}
 	if v := os.Getenv("C02_ONLY"); v == "" || v == "l3" {
